@@ -180,6 +180,19 @@ func instrumentPkg(repo, pkg, out string, replace map[string]string, rep *instrR
 				if id, ok := x.Fun.(*ast.Ident); ok && (id.Name == "delete" || id.Name == "copy" || id.Name == "clear") && len(x.Args) > 0 {
 					mark(x.Args[0])
 				}
+				// a method with a pointer receiver called on a package-level value (sync.Pool.Get/Put, sync.Map.Store,
+				// a counter's Add, ...) may change it: the variable counts as written
+				if se, ok := x.Fun.(*ast.SelectorExpr); ok {
+					if sel := info.Selections[se]; sel != nil && sel.Kind() == types.MethodVal {
+						if fn, ok := sel.Obj().(*types.Func); ok {
+							if sig, ok := fn.Type().(*types.Signature); ok && sig.Recv() != nil {
+								if _, ptr := sig.Recv().Type().(*types.Pointer); ptr {
+									mark(se.X)
+								}
+							}
+						}
+					}
+				}
 			}
 			return true
 		})
